@@ -26,16 +26,16 @@ RULE = ("streams: b64 (random byte strings of every length mod 3 vs base64.b64en
         "1-5 vectors / block vectors / unclassifiable / malformed, scales, origins, file names), wvti (WriteToVTI module "
         "histories of 1-6 iterations, overwrite on/off), log (ScalarToFile histories of 1-6 calls, formats, separators, "
         ".csv/.txt, array states in all memory layouts; the oracle reads the header labels and checks that the column labelled "
-        "tag[i, j] holds state[i, j]), log.iterorder (the model's nditer index sequence vs np.nditer). distinct = distinct request keys whose result is a written file (or a decoded byte string)")
+        "tag[i, j] holds state[i, j] in EVERY row, also when the layout changes between calls). distinct = distinct request keys whose result is a written file (or a decoded byte string)")
 ASSUMPTIONS = [
     "float64 -> float32 rounding is numpy's; the expected payload is struct.pack('<f', value) per entry (no NaN, |x| <= 3e38)",
     "decimal formatting of header floats and of logged values is Python's (external); the model receives the texts",
     "little-endian host (sys.byteorder == 'little'); the big-endian branch of the model is not exercised",
     "file names are ASCII apart from vector names (UTF-8)",
-    "ScalarToFile array states come in every memory layout (C, Fortran, transposed, permuted, strided, reversed axes); the layout "
-    "(axes by decreasing |stride|, reversed axes) is computed from state.strides, checked against np.nditer for every generated "
-    "state, and sent to the model; zero strides (broadcast views) are not generated; shape and layout of a signal's state stay "
-    "fixed over the calls of one history (the header is written once, at iteration 0)",
+    "ScalarToFile array states come in every memory layout (C, Fortran, transposed, permuted, strided, reversed axes) and the "
+    "layout of a signal's state may change from call to call; the layout (axes by decreasing |stride|, reversed axes) is sent to "
+    "the model, which - like the code since 7a67c87 - ignores it; zero strides (broadcast views) are not generated; the SHAPE of a "
+    "signal's state stays fixed over the calls of one history (the header is written once, at iteration 0)",
     "a vector whose size is a multiple of BOTH nel and nnodes is written as cell data (the code tests nel first); "
     "the cell/point oracle is applied only to sizes that are a multiple of exactly one of them",
 ]
@@ -671,37 +671,15 @@ def build_state(spec):
 
 
 def memory_layout(a):
-    """(perm, flip) of an ndarray as np.nditer(order='K') follows it: axes by decreasing |stride| (ties keep C order),
-    an axis with a negative stride is walked backwards.  Checked against nditer itself by `nditer_order_ok`."""
+    """(perm, flip) of an ndarray: axes by decreasing |stride| (ties keep C order), axes with a negative stride.
+    Sent to the model as the description of the layout; the model (like the repaired code) must not depend on it."""
     perm = sorted(range(a.ndim), key=lambda ax: (-abs(a.strides[ax]), ax))
     return perm, [bool(a.strides[ax] < 0) for ax in range(a.ndim)]
 
 
-def predicted_order(shape, perm, flip):
-    """index sequence for a layout (python twin of the model's `iterIndex`)"""
-    out = []
-    pshape = [shape[a] for a in perm]
-    for k in range(int(np.prod(shape))):
-        digits, rem = [], k
-        for p in range(len(perm)):
-            stride = int(np.prod(pshape[p + 1:])) if p + 1 < len(perm) else 1
-            digits.append(rem // stride)
-            rem %= stride
-        out.append(tuple((shape[a] - 1 - digits[perm.index(a)]) if flip[a] else digits[perm.index(a)] for a in range(len(shape))))
-    return out
-
-
-def nditer_order(a):
-    it = np.nditer(a, flags=["multi_index"])
-    out = []
-    while not it.finished:
-        out.append(tuple(int(i) for i in it.multi_index))
-        it.iternext()
-    return out
-
-
 def rand_spec(rng, kind, fixed=None):
-    """fixed = (shape, dtype, layout) chosen once per signal and history; the values are new in every call"""
+    """fixed = (shape, dtype, layout, vary) chosen once per signal and history; the values are new in every call and, if
+    `vary`, so is the memory layout (the shape never changes: the header is written once, at iteration 0)"""
     v = rand_values(rng, 1)[0]
     if kind == "pyfloat":
         return {"py": "float", "shape": [], "dtype": "float64", "values": [v], "layout": None}
@@ -715,7 +693,9 @@ def rand_spec(rng, kind, fixed=None):
         return {"py": "ndarray", "shape": list(rng.choice([(1,), (1, 1)])), "dtype": "float64", "values": [v], "layout": None}
     if kind == "size0":
         return {"py": "ndarray", "shape": [0], "dtype": "float64", "values": [], "layout": None}
-    shape, dtype, layout = fixed
+    shape, dtype, layout, vary = fixed
+    if vary:
+        layout = rand_layout(rng, len(shape))
     n = int(np.prod(shape))
     vals = [rng.randint(-99, 99) for _ in range(n)] if dtype == "int64" else rand_values(rng, n)
     return {"py": "ndarray", "shape": list(shape), "dtype": dtype, "values": vals, "layout": layout}
@@ -730,7 +710,7 @@ def rand_fixed(rng, kind):
         shape = rng.choice([(2, 2), (2, 3), (3, 2), (1, 3), (3, 1), (2, 1, 2), (2, 3, 2), (2, 2, 2), (3, 2, 1)])
     else:
         return None
-    return shape, ("int64" if kind == "ivec" or rng.random() < 0.1 else "float64"), rand_layout(rng, len(shape))
+    return shape, ("int64" if kind == "ivec" or rng.random() < 0.1 else "float64"), rand_layout(rng, len(shape)), rng.random() < 0.6
 
 
 def state_tokens(state, fmt):
@@ -861,6 +841,7 @@ def oracle_log(impl, tags, fmt, sep_arg, name, calls):
             return f"row {i}: first column {cols[0]!r} is not the iteration number"
         if sorted(exp) != sorted(labels):
             continue                      # the shape of a state changed after the header was written: no labels for this row
+        # every row is in the header's column order, whatever the memory layout of the state in that call
         for lab, c in zip(labels, cols[1:]):
             w, v = exp[lab]
             if c != w:
@@ -895,19 +876,16 @@ def run_log_stream(ctx, n):
             tags, fmt, sep, name, calls, file0 = gen_log(rng)
             tmp.clear()
             states = [[build_state(sp) for sp in sts] for sts in calls]
-            # self-test of the layout rule against numpy: the index sequence predicted from the strides must be nditer's
-            bad_layout = False
+            changes = False
+            for k in range(len(tags)):
+                lays = {json.dumps(memory_layout(sts[k])) for sts in states
+                        if isinstance(sts[k], np.ndarray) and sts[k].ndim >= 1 and sts[k].size > 1}
+                changes = changes or len(lays) > 1
             for sts in states:
                 for st in sts:
-                    if isinstance(st, np.ndarray) and st.ndim >= 1 and st.size > 1:
-                        perm, flip = memory_layout(st)
-                        if predicted_order(st.shape, perm, flip) != nditer_order(st):
-                            bad_layout = True
+                    if layout_name(st):
                         ctx.branch("log.layout." + layout_name(st))
-            if bad_layout:
-                ctx.skipped_boundary += 1
-                ctx.notes.append("layout rule (decreasing |stride|) differs from np.nditer for a generated state; case skipped")
-                continue
+            ctx.branch("log.layout_changes_between_calls" if changes else "log.layout_constant")
             r = call_impl(impl_log, tmp, tags, fmt, sep, name, calls, file0)
             if r[0] == "err":
                 ctx.disagree("log", {"fmt": fmt, "name": name}, r[2], None, "ScalarToFile could not be constructed / read back")
@@ -950,24 +928,6 @@ def run_log_stream(ctx, n):
         ctx.sample({"stream": "log", "fmt": metas[i][1], "sep": metas[i][2], "name": metas[i][3],
                     "layouts": [sp.get("layout") for sp in metas[i][4][0]],
                     "real_file": (impls[i]["file"] or b"").decode("utf8", "replace")[:300]})
-
-
-def layout_selftest(ctx):
-    """the model's `iterIndex` (driver op c20.iterorder) against np.nditer itself, over all layouts of small arrays"""
-    rng = ctx.rng
-    reqs, wants = [], []
-    for shape in [(2, 3), (3, 2), (2, 2), (1, 3), (3, 1), (2, 3, 2), (2, 1, 2), (4,), (2, 2, 2)]:
-        for _ in range(6 if ctx.quick else 25):
-            lay = rand_layout(rng, len(shape))
-            st = build_state({"py": "ndarray", "shape": list(shape), "dtype": "float64",
-                              "values": list(range(int(np.prod(shape)))), "layout": lay})
-            perm, flip = memory_layout(st)
-            reqs.append({"m": "c20.iterorder", "shape": list(shape), "perm": perm, "flip": flip})
-            wants.append([list(t) for t in nditer_order(st)])
-    res = ctx.model(reqs)
-    for rq, w, m in zip(reqs, wants, res):
-        ctx.branch("log.iterorder")
-        ctx.compare_exact("log.iterorder", rq, w, m.get("ok"), key=("iterorder", json.dumps(rq)))
 
 
 def witness_log(tags, fmt, sep, name, calls, file0):
@@ -1058,7 +1018,6 @@ def correspondence(ctx):
     run_names_stream(ctx, 60 if q else 600)
     run_vti_stream(ctx, 160 if q else 2500)
     run_wvti_stream(ctx, 50 if q else 700)
-    layout_selftest(ctx)
     run_log_stream(ctx, 140 if q else 2000)
     if not q:
         selftest(ctx)
